@@ -39,6 +39,10 @@ def run():
         prm = {"policy": pol, "thr": THR * U.UNIT, "intervalMs": 0, "seqMode": True}
         for k, sc in enumerate(pick(scripts, 40 if quick else 300, ctx.seed)):
             scs.append(U.to_scenario("C20/seq/%s/%d" % (pol, k), sc, policy=pol, thr=THR, seq=True, auto_ack=True, params=prm))
+        if pol == "size":
+            # the size half of IntervalOrBufferSize (interval far away): the same partition as the size policy
+            for k, sc in enumerate(pick(scripts, 20 if quick else 150, ctx.seed + 3)):
+                scs.append(U.to_scenario("C20/seq/sizeOrInterval/%d" % k, sc, policy="sizeOrLongInterval", thr=THR, seq=True, auto_ack=True, params=prm))
         prm2 = dict(prm, seqMode=False)
         for k, sc in enumerate(pick(scripts, 25 if quick else 300, ctx.seed + 7)):
             scs.append(U.to_scenario("C20/conc/%s/%d" % (pol, k), sc, policy=pol, thr=THR, auto_ack=True, sample_state=True, params=prm2))
@@ -56,6 +60,23 @@ def run():
             steps += [{"a": "sleep", "ms": 200}, {"a": "closeUp", "g": "S", "obj": "U1", "wait": True, "ctxMs": 3000}, {"a": "quiesce"},
                       {"a": "closeConn", "g": "main2", "wait": True, "ctxMs": 2000}]
             tscs.append({"id": "C20/timed/%s/%d" % (pol, k), "kind": "iscp", "conn": {}, "steps": steps,
+                         "p": {"policy": pol, "thr": THR * U.UNIT, "intervalMs": ms, "seqMode": False}})
+    # interval policies: an explicit Flush in the middle of an interval, a write that crosses the size threshold (intervalOrSize cuts at
+    # once), a Flush whose context is already done - data written afterwards must still leave within one interval
+    for pol, ms in (("interval", 60), ("intervalOrSize", 60)):
+        for k, mid in enumerate([{"a": "flush", "g": "S", "obj": "U1", "ctxMs": 1000, "wait": True},
+                                 {"a": "write", "g": "S", "obj": "U1", "id": "A", "pts": [[50, THR * U.UNIT + 8]], "wait": True},
+                                 {"a": "flush", "g": "S", "obj": "U1", "ctxMs": -1, "wait": True}]):
+            steps = [{"a": "connect", "must": True},
+                     {"a": "openUp", "obj": "U1", "qos": "reliable", "policy": {"k": pol, "ms": ms, "size": THR * U.UNIT}, "must": True},
+                     {"a": "ackMode", "mode": "auto"},
+                     {"a": "write", "g": "S", "obj": "U1", "id": "A", "pts": [[1, 4]], "wait": True}, {"a": "sleep", "ms": 25}, mid, {"a": "state", "obj": "U1"},
+                     {"a": "sleep", "ms": 20}, {"a": "write", "g": "S", "obj": "U1", "id": "B", "pts": [[2, 4]], "wait": True}, {"a": "state", "obj": "U1"},
+                     {"a": "sleep", "ms": 150}, {"a": "write", "g": "S", "obj": "U1", "id": "A", "pts": [[3, 4]], "wait": True},
+                     {"a": "sleep", "ms": 200}, {"a": "state", "obj": "U1"},
+                     {"a": "closeUp", "g": "S", "obj": "U1", "wait": True, "ctxMs": 3000}, {"a": "quiesce"},
+                     {"a": "closeConn", "g": "main2", "wait": True, "ctxMs": 2000}]
+            tscs.append({"id": "C20/timedmix/%s/%d" % (pol, k), "kind": "iscp", "conn": {}, "steps": steps,
                          "p": {"policy": pol, "thr": THR * U.UNIT, "intervalMs": ms, "seqMode": False}})
     ttrace = ctx.run_scenarios(tscs, "c20t", par=4)
     verdicts, _ = ctx.validate(trace, "MonC20")
